@@ -54,6 +54,39 @@ def strategy(tier):
                      st.lists(_step(), min_size=1, max_size=14), st.sampled_from(["direct", "direct", "sd"]))
 
 
+ALPHA = ["sub0", "sub1", "unsub0", "unsub1", "sub0c", "unsub0c", "notify", "set", "hop", "+0.6"]
+ENUM_LEN = {"quick": 4, "thorough": 5}
+EXHAUSTIVE = {"quick": "all 10^4 scripts of length 4 over {subscribe/unsubscribe of two endpoints to the explicit eventgroup, of one endpoint to the cyclic eventgroup, notify_once, value update} x timing prefixes {one loop iteration later without idle point, +0.6 s}, directly and through the wire",
+              "thorough": "all 10^5 scripts of length 5 over the same alphabet, directly and through the wire"}
+
+
+def enum_size(tier):
+    return 2 * len(ALPHA) ** ENUM_LEN[tier]
+
+
+def enum_case(tier, idx):
+    idx, via = divmod(idx, 2)
+    steps = []
+    when = ["d", 0.01]
+    for _ in range(ENUM_LEN[tier]):
+        idx, r = divmod(idx, len(ALPHA))
+        a = ALPHA[r]
+        if a == "hop":
+            when = ["i", 1]
+            continue
+        if a == "+0.6":
+            when = ["d", 0.6]
+            continue
+        if a == "notify":
+            steps.append({"op": "notify", "mask": 3, "when": when})
+        elif a == "set":
+            steps.append({"op": "set", "eg": 1, "ev": 0, "val": "%02x" % (len(steps) + 1), "when": when})
+        else:
+            steps.append({"op": "unsub" if a.startswith("unsub") else "sub", "ep": 1 if a.rstrip("c").endswith("1") else 0, "eg": 2 if a.endswith("c") else 1, "when": when})
+        when = ["d", 0.01]
+    return {"n1": 2, "n2": 1, "via": "sd" if via else "direct", "steps": [{"op": "sub", "ep": 2, "eg": 1, "when": ["d", 0.01]}] + steps + [{"op": "notify", "mask": 3, "when": ["d", 0.05]}]}
+
+
 def fixed_cases(tier):
     S = lambda ep, eg, w: {"op": "sub", "ep": ep, "eg": eg, "when": w}       # noqa: E731
     U = lambda ep, eg, w: {"op": "unsub", "ep": ep, "eg": eg, "when": w}     # noqa: E731
